@@ -317,9 +317,13 @@ def check(spec, fault, case, do_edits=True):
     for n_ in nodes:
         if "id" in n_.attributes and n_.name != "references":
             for c_ in n_.children:
+                c_.add_namespace("d", "urn:example:source")          # (a binding of the child's own: it wins where the copy goes)
                 for gc_ in c_.children[:1]:
                     gc_.add_namespace("x", "urn:example:x")
                     gc_.add_extras("x:note", "n")
+    for n_ in nodes:
+        if n_.name == "references" and n_.parent is not None and "d" not in n_.parent.nsmap:
+            n_.parent.add_namespace("d", "urn:example:destination")
     by_path = {}
 
     def index_paths(n_, path_):
